@@ -610,13 +610,17 @@ def run_classification(ctx, second_path=True):
             ctx.count("generator.none"); return
         d = pr.dims
         sparse = rng.random() < 0.4
+        # 'L' storage: zeros or unrelated numbers in the unreferenced strict upper triangles (P and the 's' blocks of G, h)
+        junk = rng.random() < 0.3 and (isqp or bool(d.s))
+        if junk:
+            ctx.count("junk-upper-triangles")
         if isqp:
-            args = sr.cvx_args(pr, rng, sparseG=sparse, sparseA=sparse and rng.random() < 0.5, sparseP=sparse)
+            args = sr.cvx_args(pr, rng, sparseG=sparse, sparseA=sparse and rng.random() < 0.5, sparseP=sparse, junk=junk)
         elif entry == "conelp":
-            args = sr.cvx_args(pr, rng, sparseG=sparse, sparseA=sparse and rng.random() < 0.5)
+            args = sr.cvx_args(pr, rng, sparseG=sparse, sparseA=sparse and rng.random() < 0.5, junk=junk)
         else:
-            args = sr.wrapper_args(entry, pr, rng, sparse=sparse)
-        c.desc.update({"entry": entry, "kind": kind, "dims": d.key(), "n": pr.n, "p": pr.p, "sparse": sparse,
+            args = sr.wrapper_args(entry, pr, rng, sparse=sparse, junk=junk)
+        c.desc.update({"entry": entry, "kind": kind, "dims": d.key(), "n": pr.n, "p": pr.p, "sparse": sparse, "junk": junk,
                        "sv": pr.pl.get("sv") if hasattr(pr, "pl") else None,
                        "rows<n": d.Np < pr.n})
         opts = {"show_progress": False}
